@@ -34,6 +34,11 @@ ADVERSARIAL = [
     "<>?/\\|", "`~`", "A..B", "A..B : c", "1000 lbf", ".1000 lbf : x", "MN.1000 lbf", "12:30", "12:30:45", " 12:30 : 13:40", "hh:mm", ".hh:mm",
     "é", "=== end ===", "END", "UNKNOWN", "UNKNOWN.", "mnemonic", "#", "# comment", "", "   ", "0", "0.", "0.0", ".0", "1e5", "nan", "inf.", "None",
     "STRT", "STOP.", "STEP.M 1 : x", "API . 0001 : a", "UWI. 007", "COMP.  : ", "X.Y Z", "X .Y Z : W",
+    # parsable lines whose value stresses the number conversion that runs after the regex step
+    "SERIAL. 123456789012345678901234567890 : serial", "BIG. 9223372036854775808 : just beyond int64", "NEG. -9223372036854775809 :",
+    "OVF. 1e999 : overflow", "OVF2. -1e400", "TINY. 1e-999 : underflow", "HUGE." + " " + "9" * 400 + " : digits", "MIX. 1,5e3 : comma",
+    "U. 15_9 : underscore", "NANV. nan : nan", "INFV. -inf", "PCT%. 45 : percent in name", "PCT%. 46 : percent in name again",
+    "%s. 1 : format", "%s. 2 : format", "%d%%. 3", "{0}. 4 : braces", "{0}. 5 : braces",
 ]
 
 PRINTABLE = "".join(chr(c) for c in range(32, 127)) + "\t"
@@ -275,6 +280,6 @@ def corpus_cases(draw):
 
 def parts(tier):
     return [
-        Hyp("junk-in-generated-files", cases, quick=5000, thorough=150000),
+        Hyp("junk-in-generated-files", cases, quick=10000, thorough=150000),
         Hyp("junk-in-example-files", corpus_cases, quick=1500, thorough=30000),
     ]
